@@ -1,8 +1,171 @@
-import Ufw.Model.Regp
-import Ufw.Spec.Regp
+/-
+C06 – a valid request is executed exactly once and answered faithfully.  Property theorems only.
+
+`answer` is the frame doc/regp.txt prescribes for a request and a backend verdict; the theorems
+say that `regp_process` makes exactly one backend call with the request's address, block size
+and received payload, and puts exactly `Spec.Regp.wire` of `answer` on the wire.
+-/
+import Ufw.Props.C08
+
 namespace Ufw.Props.C06
-open Ufw Ufw.Model.Regp
-/-- placeholder while the correspondence is brought up: the session counter wraps at 2^16 -/
-theorem seq_step (c : Cfg) (snk : Ufw.Model.Slip.Snk) (seq : Nat) (s16 : Bool) (a n : Nat) :
-    (regp_req_read c snk seq s16 a n).2 = (seq + 1) % 65536 := rfl
+open Ufw Ufw.Model.Regp Ufw.Lemmas.Regp
+open Ufw.Model.Slip (Snk SrcEv)
+open Ufw.Spec.Regp (Frame MType wire request errorResponse ackResponse carriesValue)
+open Ufw.Props.C08 (reqOf Fits Emits)
+
+/-- a frame that `regp_recv` returned without error: raw octets, parsed fields, payload offset -/
+def received (raw : List Octet) (h : Hdr) (off : Nat) : MaybeFrame :=
+  { err := none, framesize := 0, frame := some { raw := raw, hdr := some (h, off) } }
+
+/-- the response the document prescribes for request `h`, verdict `status`, reported `address`,
+    delivered atoms `data`: acknowledgement with exactly the delivered atoms, or the error response
+    in octet semantics carrying the buffer size (ERXOVERFLOW, ETXOVERFLOW) resp. the reported
+    address (EUNMAPPED, EACCESS, ERANGE, EINVALID) as four octets big-endian -/
+def answer (c : Cfg) (h : Hdr) (status address : Nat) (data : List Octet) : Frame :=
+  if status = 0 then ackResponse (reqOf h) c.mem16 data
+  else errorResponse (reqOf h) status (if status = 4 ∨ status = 5 then (c.B - c.F) % 2 ^ 32 else address)
+
+def unitOf (c : Cfg) : Nat := if c.mem16 then 2 else 1
+
+/-- the backend call a write request causes -/
+def writeCall (c : Cfg) (raw : List Octet) (h : Hdr) (off : Nat) : Call :=
+  { write := true, sem16 := c.mem16, addr := h.addr, bsize := h.bsize, room := c.B - (c.F + 2 * off),
+    payload := raw.drop (2 * off) }
+
+def readCall (c : Cfg) (h : Hdr) (off : Nat) : Call :=
+  { write := false, sem16 := c.mem16, addr := h.addr, bsize := h.bsize, room := c.B - (c.F + 2 * off), payload := [] }
+
+/-- WRITE: exactly one backend call - address, block size and exactly the received payload - and
+    exactly the prescribed response (acknowledgement without payload, or the error response) -/
+theorem process_write (c : Cfg) (snk : Snk) (raw : List Octet) (h : Hdr) (off : Nat) (be : Backend)
+    (ht : h.type = 2) (hws : c.mem16 = decide (h.opts &&& 1 ≠ 0)) (hst : be.status ≤ 11)
+    (hroom : Fits snk (wire c.serial (answer c h be.status be.address []))) :
+    (regp_process c snk (received raw h off) be).2 = [writeCall c raw h off] ∧
+    Emits (regp_process c snk (received raw h off) be).1 snk (wire c.serial (answer c h be.status be.address [])) := by
+  have hreq : is_request h = true := by simp [is_request, ht]
+  have hw : (c.mem16 != decide (h.opts &&& 1 ≠ 0)) = false := by simp [hws]
+  have ht0 : ¬ h.type = 0 := by omega
+  simp only [regp_process, received, hreq, Bool.not_true, Bool.false_eq_true, ↓reduceIte, hw, ht0, writeCall, true_and]
+  simp only [answer] at hroom ⊢
+  by_cases h0 : be.status = 0
+  · simp only [h0, ↓reduceIte, Option.isSome_none, Bool.false_eq_true] at hroom ⊢
+    exact Ufw.Props.C08.ack_empty_wire c snk h (Or.inr ht) hroom
+  · simp only [h0, ↓reduceIte] at hroom ⊢
+    by_cases hv : carriesValue be.status = true
+    · have h45 : be.status = 4 ∨ be.status = 5 ∨ (7 ≤ be.status ∧ be.status ≤ 10) := by
+        simpa [carriesValue] using hv
+      have hno : ¬ (be.status = 1 ∨ be.status = 2 ∨ be.status = 3 ∨ be.status = 6 ∨ be.status = 11) := by omega
+      simp only [hno, ↓reduceIte]
+      by_cases hb : be.status = 4 ∨ be.status = 5
+      · simp only [hb, ↓reduceIte] at hroom ⊢
+        exact Ufw.Props.C08.resp32_wire c snk h _ _ (Or.inr ht) (by omega) hv hroom
+      · have h7 : 7 ≤ be.status ∧ be.status ≤ 10 := by omega
+        simp only [hb, h7, and_self, ↓reduceIte] at hroom ⊢
+        exact Ufw.Props.C08.resp32_wire c snk h _ _ (Or.inr ht) (by omega) hv hroom
+    · have hv' : carriesValue be.status = false := by simpa using hv
+      have h1 : be.status = 1 ∨ be.status = 2 ∨ be.status = 3 ∨ be.status = 6 ∨ be.status = 11 := by
+        simp [carriesValue] at hv'; omega
+      simp only [h1, ↓reduceIte]
+      exact Ufw.Props.C08.resp0_wire c snk h _ _ (Or.inr ht) (by omega) hv' hroom
+
+/-- the response for a verdict other than ACK, shared by reads and writes -/
+private theorem error_reply (c : Cfg) (snk : Snk) (h : Hdr) (status address : Nat) (ht : h.type = 0 ∨ h.type = 2)
+    (h0 : status ≠ 0) (hst : status ≤ 11)
+    (hroom : Fits snk (wire c.serial (errorResponse (reqOf h) status
+      (if status = 4 ∨ status = 5 then (c.B - c.F) % 2 ^ 32 else address)))) :
+    Emits (if status = 1 ∨ status = 2 ∨ status = 3 ∨ status = 6 ∨ status = 11 then send_resp_0 c snk h status .s8
+           else if status = 4 ∨ status = 5 then send_resp_32 c snk h status ((c.B - c.F) % 2 ^ 32) .s8
+           else if 7 ≤ status ∧ status ≤ 10 then send_resp_32 c snk h status address .s8
+           else ⟨some .einval, snk⟩) snk
+      (wire c.serial (errorResponse (reqOf h) status (if status = 4 ∨ status = 5 then (c.B - c.F) % 2 ^ 32 else address))) := by
+  by_cases hv : carriesValue status = true
+  · have h45 : status = 4 ∨ status = 5 ∨ (7 ≤ status ∧ status ≤ 10) := by simpa [carriesValue] using hv
+    have hno : ¬ (status = 1 ∨ status = 2 ∨ status = 3 ∨ status = 6 ∨ status = 11) := by omega
+    simp only [hno, ↓reduceIte]
+    by_cases hb : status = 4 ∨ status = 5
+    · simp only [hb, ↓reduceIte] at hroom ⊢
+      exact Ufw.Props.C08.resp32_wire c snk h _ _ ht (by omega) hv hroom
+    · have h7 : 7 ≤ status ∧ status ≤ 10 := by omega
+      simp only [hb, h7, and_self, ↓reduceIte] at hroom ⊢
+      exact Ufw.Props.C08.resp32_wire c snk h _ _ ht (by omega) hv hroom
+  · have hv' : carriesValue status = false := by simpa using hv
+    have h1 : status = 1 ∨ status = 2 ∨ status = 3 ∨ status = 6 ∨ status = 11 := by
+      simp [carriesValue] at hv'; omega
+    simp only [h1, ↓reduceIte]
+    exact Ufw.Props.C08.resp0_wire c snk h _ _ ht (by omega) hv' hroom
+
+/-- READ that fits: exactly one backend call with the request's address and block size, handed a
+    buffer that lies inside the block with room for the block; the answer is the acknowledgement
+    carrying exactly the delivered atoms, or the prescribed error response -/
+theorem process_read (c : Cfg) (snk : Snk) (raw : List Octet) (h : Hdr) (off : Nat) (be : Backend)
+    (ht : h.type = 0) (hws : c.mem16 = decide (h.opts &&& 1 ≠ 0)) (hst : be.status ≤ 11)
+    (hfit : h.bsize * unitOf c ≤ c.B - (c.F + 2 * off))
+    (hdata : (be.data (h.bsize * unitOf c)).length = h.bsize * unitOf c)
+    (hroom : Fits snk (wire c.serial (answer c h be.status be.address (be.data (h.bsize * unitOf c))))) :
+    (regp_process c snk (received raw h off) be).2 = [readCall c h off] ∧
+    (readCall c h off).bsize * unitOf c ≤ (readCall c h off).room ∧
+    Emits (regp_process c snk (received raw h off) be).1 snk
+      (wire c.serial (answer c h be.status be.address (be.data (h.bsize * unitOf c)))) := by
+  have hreq : is_request h = true := by simp [is_request, ht]
+  have hw : (c.mem16 != decide (h.opts &&& 1 ≠ 0)) = false := by simp [hws]
+  have hnf : ¬ (c.B - (c.F + 2 * off)) / unitOf c < h.bsize := by
+    simp only [unitOf] at hfit ⊢
+    cases hm : c.mem16 <;> simp [hm] at hfit ⊢ <;> omega
+  simp only [unitOf] at hnf hfit hdata hroom
+  simp only [regp_process, received, hreq, Bool.not_true, Bool.false_eq_true, ↓reduceIte, hw, ht, hnf, readCall, unitOf,
+    true_and]
+  refine ⟨hfit, ?_⟩
+  simp only [answer] at hroom ⊢
+  by_cases h0 : be.status = 0
+  · simp only [h0, ↓reduceIte, Option.isSome_some] at hroom ⊢
+    exact Ufw.Props.C08.ack_wire c snk h _ _ (Or.inl ht) hdata hroom
+  · simp only [h0, ↓reduceIte] at hroom ⊢
+    exact error_reply c snk h be.status be.address (Or.inl ht) h0 hst hroom
+
+/-- READ whose answer cannot fit behind the request header in the block: no backend call, the
+    transmit-overflow response carrying the buffer size -/
+theorem process_read_overflow (c : Cfg) (snk : Snk) (raw : List Octet) (h : Hdr) (off : Nat) (be : Backend)
+    (ht : h.type = 0) (hws : c.mem16 = decide (h.opts &&& 1 ≠ 0))
+    (hbig : c.B - (c.F + 2 * off) < h.bsize * unitOf c)
+    (hroom : Fits snk (wire c.serial (errorResponse (reqOf h) 5 ((c.B - c.F) % 2 ^ 32)))) :
+    (regp_process c snk (received raw h off) be).2 = [] ∧
+    Emits (regp_process c snk (received raw h off) be).1 snk
+      (wire c.serial (errorResponse (reqOf h) 5 ((c.B - c.F) % 2 ^ 32))) := by
+  have hreq : is_request h = true := by simp [is_request, ht]
+  have hw : (c.mem16 != decide (h.opts &&& 1 ≠ 0)) = false := by simp [hws]
+  have hnf : (c.B - (c.F + 2 * off)) / unitOf c < h.bsize := by
+    simp only [unitOf] at hbig ⊢
+    cases hm : c.mem16 <;> simp [hm] at hbig ⊢ <;> omega
+  simp only [unitOf] at hnf
+  simp only [regp_process, received, hreq, Bool.not_true, Bool.false_eq_true, ↓reduceIte, hw, ht, hnf, true_and]
+  exact Ufw.Props.C08.resp32_wire c snk h 5 _ (Or.inl ht) (by omega) (by simp [carriesValue]) hroom
+
+/-- a request whose word size does not match the attached memory: EWORDSIZE, memory untouched -/
+theorem process_wordsize (c : Cfg) (snk : Snk) (raw : List Octet) (h : Hdr) (off : Nat) (be : Backend)
+    (ht : h.type = 0 ∨ h.type = 2) (hws : c.mem16 ≠ decide (h.opts &&& 1 ≠ 0))
+    (hroom : Fits snk (wire c.serial (errorResponse (reqOf h) 1 0))) :
+    (regp_process c snk (received raw h off) be).2 = [] ∧
+    Emits (regp_process c snk (received raw h off) be).1 snk (wire c.serial (errorResponse (reqOf h) 1 0)) := by
+  have hreq : is_request h = true := by rcases ht with ht | ht <;> simp [is_request, ht]
+  have hw : (c.mem16 != decide (h.opts &&& 1 ≠ 0)) = true := by simpa using hws
+  simp only [regp_process, received, hreq, Bool.not_true, Bool.false_eq_true, ↓reduceIte, hw, true_and]
+  exact Ufw.Props.C08.resp0_wire c snk h 1 0 ht (by omega) (by simp [carriesValue]) hroom
+
+/-- responses, meta messages, a NULL frame, and a frame whose header never parsed cause neither a
+    memory access nor a reply (failed receptions: C07.rejected_not_executed) -/
+theorem process_ignores (c : Cfg) (snk : Snk) (mf : MaybeFrame) (be : Backend)
+    (h : mf.frame = none ∨ (∃ b, mf.frame = some b ∧ b.hdr = none) ∨
+         (∃ b hd off, mf.frame = some b ∧ b.hdr = some (hd, off) ∧ is_request hd = false)) :
+    regp_process c snk mf be = (⟨none, snk⟩, []) := by
+  rcases h with h | ⟨b, h1, h2⟩ | ⟨b, hd, off, h1, h2, h3⟩
+  · simp [regp_process, h]
+  · simp only [regp_process, h1, h2]
+    cases mf.err with
+    | none => rfl
+    | some e => cases e <;> rfl
+  · simp only [regp_process, h1, h2, h3]
+    cases mf.err with
+    | none => simp
+    | some e => cases e <;> simp
+
 end Ufw.Props.C06
